@@ -55,6 +55,11 @@ pub fn trigger_holds(name: &str, sc: &Scenario) -> bool {
             names.sort();
             names.windows(2).any(|x| x[0] == x[1])
         }),
+        // a solve with a cancellation plan is followed by another solve on the same solver
+        "cancelled_solve_followed_by_another" => {
+            let n = sc.solves.len();
+            sc.solves.iter().enumerate().any(|(i, s)| s.cancel.is_some() && i + 1 < n)
+        }
         "soft_requirements_present" => sc.solves.iter().any(|s| !s.problem.soft.is_empty()),
         "duplicate_root_requirement" => sc.solves.iter().any(|s| {
             let r: &Vec<Req> = &s.problem.requirements;
